@@ -34,6 +34,14 @@ pub fn gen_case(t: &mut Tape, tier: Tier) -> Option<Phys> {
             g.weights = old;
         }
     }
+    if !t.chance(0.92) && g.externals.len() >= 2 {
+        // exactly one external vertex (no momentum flows; the edge-selection oracle only needs the table): the weights
+        // are kept, so the sampler may now reject the graph, which is labelled and skipped
+        g.externals.truncate(1);
+        if !g.accepted_f64() {
+            return None;
+        }
+    }
     let kin = gen::gen_kin(t, &g, 1);
     let prof = gen::PointProfile { u_w: [0.15, 0.3, 0.3, 0.25], xi_w: [0.0, 1.0, 0.0, 0.0], lambda_tail: 0.0, bm_extreme: 0.0 };
     let (x, classes) = gen::gen_point(t, &g, &prof);
